@@ -818,6 +818,10 @@ def run(tier, seed, replay=None):
         ctl = {}
         for how in ("nat-kind", "puncture-target", "forgot-peer", "lan-as-wan"):
             bad = next((c for c in (corrupt(t, how) for t in traces) if c is not None), None)
+            for k in range(200 if bad is None else 0):   # no recorded world offers the situation: make one
+                bad = corrupt(record_trace(random.Random(seed + 1000 + k), SABOTAGE_TOPOLOGY), how)
+                if bad is not None:
+                    break
             ctl[how] = None if bad is None else side.apply_async(_validate_job,
                                                                  ((json.dumps(_j([bad])), "NatWalkTrace.cfg"),))
         for k in range(200):   # a schedule in which I really introduces B1 to the requester A
